@@ -98,10 +98,10 @@ def instrument(spec, guards='gv', contracts=None, cond_fn=False):
             s['inv'] = [mk(c, True) for c in s.get('c_inv') or []]
     for t in spec['transitions']:
         t['action'] = action_code(t['id'], t.get('sends'), t.get('extra'))
-        if guards == 'gv':
-            t['guard'] = guard_code(t['id'])
-        elif guards == 'time' and t.get('tguard'):
+        if guards in ('gv', 'time') and t.get('tguard'):
             t['guard'] = time_guard_code(t['id'], t['tguard'][0], t['tguard'][1])
+        elif guards == 'gv':
+            t['guard'] = guard_code(t['id'])
         if contracts:
             t['pre'] = [mk(c, False) for c in t.get('c_pre') or []]
             t['post'] = [mk(c, True) for c in t.get('c_post') or []]
